@@ -431,6 +431,14 @@ def _group(rng, tier, idx, spec=None):
             break
     else:
         return None
+    if not spec and rng.chance(0.2):
+        # SOME matched pairs bit-identical (points that did not move: a fixed obstacle, a point on the rotation axis): their residual is
+        # zero but their row [n, s x n] still belongs in J^T J (seeded change c05e skips such rows as "nothing to align"). The
+        # ground-truth clauses no longer apply (the data are not an exact rigid image any more): judged as a general problem.
+        for k in set(rng.below(n) for _ in range(rng.int(1, 3))):
+            tgt[k] = list(src[k])
+        truth = dict(truth, exact=False, kind='noisy')
+        kind = 'noisy'
     cart, homo = 'c%d%s' % (dim, T), 'h%d%s' % (dim, T)
     lines = []
     group = []          # indices of finds that state the same problem with matching configuration
